@@ -700,6 +700,15 @@ class CphotAng:
         b = db.from_sequence(
             zip(betaE, alt, Eshow100PeV, init_lat, init_long), partition_size=100
         )
+
+        def run_event(x):
+            try:
+                return self.run(*x, cloudf)
+            except StopIteration as e:
+                # A StopIteration escaping the mapped function would silently end the
+                # partition, dropping this event and all that follow it (cf. PEP 479).
+                raise RuntimeError("StopIteration raised while evaluating an event") from e
+
         with ProgressBar():
-            Dphots, Cang = zip(*b.map(lambda x: self.run(*x, cloudf)).compute())
+            Dphots, Cang = zip(*b.map(run_event).compute())
         return np.asarray(Dphots), np.array(Cang)
